@@ -140,18 +140,25 @@ theorem trace_shape (cfg : Cfg) (ops : List Op) (c : Nat) : Shape cfg c (evsOf c
 /-- In every run: a result delivered for request `c` is exactly what the decision function
 specifies for **that** request (the one given to the inner call) and **that** inner result —
 and, if the decision was to call the backup, for that backup result, the backup having been
-called with the same request. -/
+called with the same request (or, the backup service having failed readiness, for that failure:
+no backup call was made). The one result that is not the outcome of an inner call is a readiness
+failure of the wrapped service: its error, unchanged, and nothing else about the request. -/
 theorem result_exact (cfg : Cfg) (ops : List Op) (c : Nat) (o : Outcome)
     (h : FEv.result c o ∈ (run cfg ops).log) :
+    (o = .inner readyErr ∧ evsOf c (run cfg ops).log = [.resp c (.inner readyErr), .result c (.inner readyErr)]) ∨
     ∃ rq n k out ri, FEv.innerCall c k rq ∈ (run cfg ops).log ∧ FEv.innerDone c k out ∈ (run cfg ops).log ∧
       svcResult rq k out = some ri ∧
       ((∃ cbs, afterInner cfg rq n ri = .finish cbs o) ∨
        (∃ cbs k2 out2 rb, afterInner cfg rq n ri = .backup cbs ∧
           FEv.backupCall c k2 rq ∈ (run cfg ops).log ∧ FEv.backupDone c k2 out2 ∈ (run cfg ops).log ∧
-          svcResult rq k2 out2 = some rb ∧ o = afterBackup rb)) := by
+          svcResult rq k2 out2 = some rb ∧ o = afterBackup rb) ∨
+       (∃ cbs, afterInner cfg rq n ri = .backup cbs ∧ o = afterBackup (.err readyErr) ∧
+          ∀ k2 rq', FEv.backupCall c k2 rq' ∉ (run cfg ops).log)) := by
   have hm : FEv.result c o ∈ evsOf c (run cfg ops).log := mem_evsOf.mpr ⟨h, rfl⟩
   have sub : ∀ e, e ∈ evsOf c (run cfg ops).log → e ∈ (run cfg ops).log := fun e he => (mem_evsOf.mp he).1
-  generalize hl : evsOf c (run cfg ops).log = l at hm sub
+  have nocall : ∀ k2 rq', FEv.backupCall c k2 rq' ∈ (run cfg ops).log → FEv.backupCall c k2 rq' ∈ evsOf c (run cfg ops).log :=
+    fun k2 rq' hb => mem_evsOf.mpr ⟨hb, rfl⟩
+  generalize hl : evsOf c (run cfg ops).log = l at hm sub nocall
   have hsh : Shape cfg c l := hl ▸ shape_reachable cfg ops c
   cases hsh with
   | none => simp at hm
@@ -164,13 +171,27 @@ theorem result_exact (cfg : Cfg) (ops : List Op) (c : Nat) (o : Outcome)
   | final l hf =>
       cases hf with
       | unpolled => simp at hm
+      | notReady => simp at hm
+      | readyFailed =>
+          simp at hm
+          exact Or.inl ⟨hm, rfl⟩
+      | backupNotReady rq n k out hn hnx =>
+          rcases completionInner_cases cfg c rq n k out with ⟨_, hc⟩ | ⟨ri, cbs, o', _, _, hc⟩ | ⟨ri, cbs, hr, ha, hc⟩
+          · rw [hc] at hnx; simp at hnx
+          · rw [hc] at hnx; simp at hnx
+          · simp [traceFin, hc, backupNotReady] at hm
+            refine Or.inr ⟨rq, n, k, out, ri, sub _ (by simp [traceFin]), sub _ (by simp [traceFin, hc]), hr,
+              Or.inr (Or.inr ⟨cbs, ha, hm, ?_⟩)⟩
+            intro k2 rq' hb
+            have := nocall k2 rq' hb
+            simp [traceFin, hc, backupNotReady] at this
       | droppedInner rq k => simp at hm
       | finished rq n k out hn hfin =>
           rcases completionInner_cases cfg c rq n k out with ⟨_, hc⟩ | ⟨ri, cbs, o', hr, ha, hc⟩ | ⟨ri, cbs, _, _, hc⟩
           · simp [traceFin, hc] at hm
           · simp [traceFin, hc] at hm
             subst hm
-            refine ⟨rq, n, k, out, ri, sub _ (by simp [traceFin]), sub _ (by simp [traceFin, hc]), hr, Or.inl ⟨cbs, ha⟩⟩
+            refine Or.inr ⟨rq, n, k, out, ri, sub _ (by simp [traceFin]), sub _ (by simp [traceFin, hc]), hr, Or.inl ⟨cbs, ha⟩⟩
           · rw [hc] at hfin; simp at hfin
       | droppedBackup rq n k out k2 hn hnx =>
           rcases completionInner_cases cfg c rq n k out with ⟨_, hc⟩ | ⟨ri, cbs, o', _, _, hc⟩ | ⟨ri, cbs, _, _, hc⟩
@@ -184,8 +205,8 @@ theorem result_exact (cfg : Cfg) (ops : List Op) (c : Nat) (o : Outcome)
           · rcases completionBackup_cases c rq k2 out2 with ⟨_, hb⟩ | ⟨rb, hrb, hb⟩
             · simp [traceToBackup, hc, hb] at hm
             · simp [traceToBackup, hc, hb] at hm
-              refine ⟨rq, n, k, out, ri, sub _ (by simp [traceToBackup]), sub _ (by simp [traceToBackup, hc]), hr,
-                Or.inr ⟨cbs, k2, out2, rb, ha, sub _ (by simp [traceToBackup]), sub _ (by simp [traceToBackup, hb]), hrb, hm⟩⟩
+              refine Or.inr ⟨rq, n, k, out, ri, sub _ (by simp [traceToBackup]), sub _ (by simp [traceToBackup, hc]), hr,
+                Or.inr (Or.inl ⟨cbs, k2, out2, rb, ha, sub _ (by simp [traceToBackup]), sub _ (by simp [traceToBackup, hb]), hrb, hm⟩)⟩
 
 /-- In every run: once the inner call of request `c` has succeeded, the events about `c` are
 exactly: the inner call, its completion, the response with the inner call's own payload, the
@@ -219,6 +240,11 @@ theorem success_untouched (cfg : Cfg) (ops : List Op) (c k : Nat)
   | final l hf =>
       cases hf with
       | unpolled => simp at hm
+      | notReady => simp at hm
+      | readyFailed => simp at hm
+      | backupNotReady rq n k' out hn hnx =>
+          simp [traceFin, backupNotReady] at hm
+          exact absurd hm (key rq n k' out hnx)
       | droppedInner rq k' => simp at hm
       | finished rq n k' out hn hfin =>
           rcases completionInner_cases cfg c rq n k' out with ⟨hr, hc⟩ | ⟨ri, cbs, o', hr, ha, hc⟩ | ⟨ri, cbs, _, _, hc⟩
@@ -284,6 +310,13 @@ theorem backup_call_justified (cfg : Cfg) (ops : List Op) (c k2 : Nat) (rq : Req
   | final l hf =>
       cases hf with
       | unpolled => simp at hm
+      | notReady => simp at hm
+      | readyFailed => simp at hm
+      | backupNotReady rq' n k out hn hnx =>
+          rcases completionInner_cases cfg c rq' n k out with ⟨_, hc⟩ | ⟨ri, cbs, o', _, _, hc⟩ | ⟨ri, cbs, _, _, hc⟩
+          · rw [hc] at hnx; simp at hnx
+          · rw [hc] at hnx; simp at hnx
+          · simp [traceFin, hc, backupNotReady] at hm
       | droppedInner rq' k => simp at hm
       | finished rq' n k out hn hfin =>
           rcases completionInner_cases cfg c rq' n k out with ⟨_, hc⟩ | ⟨ri, cbs, o', _, _, hc⟩ | ⟨ri, cbs, _, _, hc⟩
@@ -307,6 +340,102 @@ theorem backup_call_justified (cfg : Cfg) (ops : List Op) (c k2 : Nat) (rq : Req
                 (simp [traceToBackup, hc, hb] at hm; exact hm.2.symm)
           subst hrq
           exact key rq' n k out k2' _ hnx sub
+
+/-! ## readiness: `poll_ready` forwards, and nothing else -/
+
+/-- `Fallback::poll_ready` as a function of the wrapped service's answer: ready and pending are
+forwarded, an error comes back as the pass-through variant of the very same error — for every
+configuration (the function does not even take one: no predicate, no strategy, no backup). In
+particular it is not what the error transformation would have made of it. -/
+theorem poll_ready_forwards :
+    pollReady .ready = some none ∧ pollReady .pending = none ∧
+    pollReady .error = some (some (.inner readyErr)) ∧
+    Outcome.inner readyErr ≠ .inner (strategyException readyErr) := by
+  decide
+
+/-- One arrival that meets a readiness error of the wrapped service, in any state, under any
+configuration (each strategy, any predicate — accepting the error or not — or none): exactly the
+response and the result with that error, unchanged, are logged; no predicate call, no strategy
+function (the value-function counter stands), no inner call and no backup call (the serial
+counter stands), the backup service's readiness is not consulted, and the request is finished. -/
+theorem readiness_error_passed_through (cfg : Cfg) (s : State) (c tag : Nat) (plan : List Step)
+    (hg : s.svcGone = false) (hk : known s c = false) (he : answer cfg.ready s.rdy = .error) :
+    (stepS cfg s (.arrive c tag plan)).log = s.log ++ [.resp c (.inner readyErr), .result c (.inner readyErr)] ∧
+    (stepS cfg s (.arrive c tag plan)).fnCalls = s.fnCalls ∧
+    (stepS cfg s (.arrive c tag plan)).serial = s.serial ∧
+    (stepS cfg s (.arrive c tag plan)).brdy = s.brdy ∧
+    lookup (stepS cfg s (.arrive c tag plan)).phase c = some .done := by
+  simp [stepS, hg, hk, arriveS, he, pollReady, arriveEvents, emit, setPhase, lookup]
+
+/-- … and an arrival that finds the wrapped service ready or pending logs no result at all (pending:
+the caller gives up, `notReady`); either way exactly one answer of the readiness script is used. -/
+theorem arrival_consumes_one_answer (cfg : Cfg) (s : State) (c tag : Nat) (plan : List Step)
+    (hg : s.svcGone = false) (hk : known s c = false) :
+    (stepS cfg s (.arrive c tag plan)).rdy = s.rdy + 1 ∧
+    (stepS cfg s (.arrive c tag plan)).brdy = s.brdy ∧
+    (answer cfg.ready s.rdy = .ready → (stepS cfg s (.arrive c tag plan)).log = s.log) ∧
+    (answer cfg.ready s.rdy = .pending → (stepS cfg s (.arrive c tag plan)).log = s.log ++ [.notReady c]) := by
+  refine ⟨by simp [stepS, hg, hk, arriveS, emit, setPhase], by simp [stepS, hg, hk, arriveS, emit, setPhase], ?_, ?_⟩ <;>
+    intro he <;> simp [stepS, hg, hk, arriveS, he, pollReady, arriveEvents, emit, setPhase]
+
+/-- In every run: a predicate or strategy function is invoked for request `c` only after `c`'s inner
+**call** has completed with an error. A readiness error is therefore never handled and never
+transformed: it is not the outcome of any call. -/
+theorem callbacks_only_after_call_error (cfg : Cfg) (ops : List Op) (c : Nat) (cb : Callback)
+    (h : FEv.callback c cb ∈ (run cfg ops).log) :
+    ∃ k kd, FEv.innerDone c k (.err kd) ∈ (run cfg ops).log := by
+  have hm : FEv.callback c cb ∈ evsOf c (run cfg ops).log := mem_evsOf.mpr ⟨h, rfl⟩
+  have sub : ∀ e, e ∈ evsOf c (run cfg ops).log → e ∈ (run cfg ops).log := fun e he => (mem_evsOf.mp he).1
+  generalize hl : evsOf c (run cfg ops).log = l at hm sub
+  have hsh : Shape cfg c l := hl ▸ shape_reachable cfg ops c
+  -- a trace `innerCall :: completion block ++ tl` whose tail has no callback
+  have key : ∀ rq n k out (tl : List FEv), FEv.callback c cb ∉ tl →
+      FEv.callback c cb ∈ traceFin cfg c rq n k out ++ tl →
+      (∀ e, e ∈ traceFin cfg c rq n k out ++ tl → e ∈ (run cfg ops).log) →
+      ∃ k kd, FEv.innerDone c k (.err kd) ∈ (run cfg ops).log := by
+    intro rq n k out tl htl hmem hsub
+    have hin : FEv.callback c cb ∈ (completionInner cfg c rq n k out).1 := by
+      simp only [traceFin, List.cons_append, List.mem_cons, List.mem_append] at hmem
+      rcases hmem with hmem | hmem | hmem
+      · cases hmem
+      · exact hmem
+      · exact absurd hmem htl
+    obtain ⟨kd, hkd⟩ := callback_mem_completionInner hin
+    refine ⟨k, kd, hsub _ ?_⟩
+    rw [← hkd]
+    simp only [traceFin, List.cons_append, List.mem_cons, List.mem_append]
+    exact Or.inr (Or.inl (innerDone_mem_completionInner cfg c rq n k out))
+  cases hsh with
+  | none => simp at hm
+  | calling rq k => simp at hm
+  | backingUp rq n k out k2 hn hnx =>
+      exact key rq n k out [.backupCall c k2 rq] (by simp) (by simpa [traceToBackup, traceFin] using hm)
+        (by simpa [traceToBackup, traceFin] using sub)
+  | final l hf =>
+      cases hf with
+      | unpolled => simp at hm
+      | notReady => simp at hm
+      | readyFailed => simp at hm
+      | backupNotReady rq n k out hn hnx => exact key rq n k out _ (by simp [backupNotReady]) hm sub
+      | droppedInner rq k => simp at hm
+      | finished rq n k out hn hfin => exact key rq n k out [] (by simp) (by simpa using hm) (by simpa using sub)
+      | droppedBackup rq n k out k2 hn hnx =>
+          exact key rq n k out [.backupCall c k2 rq, .backupDrop c k2] (by simp)
+            (by simpa [traceToBackup, traceFin] using hm) (by simpa [traceToBackup, traceFin] using sub)
+      | finishedBackup rq n k out k2 out2 hn hn2 hnx =>
+          exact key rq n k out (.backupCall c k2 rq :: completionBackup c rq k2 out2)
+            (by simp [callback_not_mem_completionBackup])
+            (by simpa [traceToBackup, traceFin] using hm) (by simpa [traceToBackup, traceFin] using sub)
+
+/-- In every run: a result delivered for a request whose inner call was never made is the readiness
+failure of the wrapped service, unchanged, and the two lines reporting it are all there is about
+that request. -/
+theorem readiness_failure_unchanged (cfg : Cfg) (ops : List Op) (c : Nat) (o : Outcome)
+    (h : FEv.result c o ∈ (run cfg ops).log) (hno : ∀ k rq, FEv.innerCall c k rq ∉ (run cfg ops).log) :
+    o = .inner readyErr ∧ evsOf c (run cfg ops).log = [.resp c (.inner readyErr), .result c (.inner readyErr)] := by
+  rcases result_exact cfg ops c o h with hl | ⟨rq, n, k, out, ri, hcall, _⟩
+  · exact hl
+  · exact absurd hcall (hno k rq)
 
 /-! ## the response future is self-contained: dropping the service handles changes no outcome -/
 
@@ -399,6 +528,31 @@ example :
     evsOf 2 (run cfg [.arrive 1 11 [⟨0, .err 1⟩], .dropsvc, .arrive 2 12 [⟨0, .ok⟩], .poll 1, .poll 2]).log = [] ∧
     FEv.result 1 (.ok ⟨700, 0, 0⟩) ∈ (run cfg [.arrive 1 11 [⟨0, .err 1⟩], .dropsvc, .arrive 2 12 [⟨0, .ok⟩], .poll 1, .poll 2]).log ∧
     FEv.result 2 (.ok ⟨1, 2, 12⟩) ∈ (run cfg [.arrive 1 11 [⟨0, .err 1⟩], .arrive 2 12 [⟨0, .ok⟩], .poll 1, .poll 2]).log := by
+  decide
+
+/-- Readiness under the error transformation with a predicate that accepts kind 9: request 1 meets a
+readiness error of the wrapped service — returned unchanged, nothing called; request 2 finds it
+pending and gives up; request 3 is called and its **call** fails with the same kind 9 — that one is
+handled (predicate, transformation). -/
+example :
+    let cfg : Cfg := { strat := .exception, handle := some 512, val := 0, ready := [.error, .pending] }
+    let ops := [Op.arrive 1 11 [⟨0, .ok⟩], .arrive 2 12 [⟨0, .ok⟩], .arrive 3 13 [⟨0, .err 9⟩], .poll 1, .poll 2, .poll 3]
+    (run cfg ops).log =
+      [.resp 1 (.inner ⟨9, 0⟩), .result 1 (.inner ⟨9, 0⟩), .notReady 2,
+       .innerCall 3 0 ⟨3, 13⟩, .innerDone 3 0 (.err 9), .callback 3 (.predicate ⟨9, 0⟩ true),
+       .callback 3 (.exception ⟨9, 0⟩), .resp 3 (.inner ⟨19, 0⟩), .result 3 (.inner ⟨19, 0⟩)] := by
+  decide
+
+/-- Readiness of the backup service (pending, error, then ready): request 1's backup is pending once,
+then fails readiness — `FallbackFailed` of that error, no backup call; request 2's backup is called.
+Arrivals do not touch the backup's script. -/
+example :
+    let cfg : Cfg := { strat := .service, handle := none, val := 0, bready := [.pending, .error] }
+    let ops := [Op.arrive 1 11 [⟨0, .err 1⟩, ⟨0, .ok⟩], .arrive 2 12 [⟨0, .err 1⟩, ⟨0, .ok⟩], .poll 1, .poll 2]
+    (run cfg ops).log =
+      [.innerCall 1 0 ⟨1, 11⟩, .innerDone 1 0 (.err 1), .resp 1 (.failed ⟨9, 0⟩), .result 1 (.failed ⟨9, 0⟩),
+       .innerCall 2 1 ⟨2, 12⟩, .innerDone 2 1 (.err 1), .backupCall 2 2 ⟨2, 12⟩, .backupDone 2 2 .ok,
+       .resp 2 (.ok ⟨2, 2, 12⟩), .result 2 (.ok ⟨2, 2, 12⟩)] := by
   decide
 
 end TR.Props.C17
